@@ -431,6 +431,10 @@ def run_move_scp(rng, policy, mid, ctx, n, outcomes, known=True):
     except Exception as exc:      # noqa
         extra['raised'] = '%s: %s' % (type(exc).__name__, exc)
     a.dul.drain()
+    for sub in ae.sub_associations:
+        if sub.sent:
+            extra['foreign'] = 'the provider sent %s on the association to the move destination (only C-STORE requests belong there)' % \
+                [hex(w.type) for w in sub.sent]
     for o in order:
         if o[0] == 'store':
             tr.append({'ev': 'SubStore', 'd': o[1], 'dest': o[2]})
